@@ -21,7 +21,10 @@ META = dict(
                "unchanged (force of an unknown id is answered with success but changes nothing); an accepted cancel of "
                "a running UOD command finalizes every instance of that command in the same call, removes the request "
                "and runs no exec callback; in every reachable state a finalized instance's callbacks end with its "
-               "final. Interpreter model (every state, step level): a cancelled, not yet activated Watch leaves from "
+               "final; with the record invariant (repaired code incl. fixes/C10-dispose-instances-on-stop.diff) a "
+               "cancel / force request for a UOD item that is NOT offered as cancellable / forcible is rejected and changes "
+               "nothing, except for an item concluded without a command and with an untouched node (unoffered_cancel_rejected, "
+               "unoffered_force_rejected; the exception is real: unoffered_counterexample). Interpreter model (every state, step level): a cancelled, not yet activated Watch leaves from "
                "its entry and from its waiting loop without bodyStart; a forced Watch/Alarm is activated whatever the "
                "condition; the waiting loop of a forced Wait completes in that step; a forced node is never awaiting "
                "its threshold and its wrapper starts it; cancel/force are accepted iff hasRecord and "
@@ -34,8 +37,11 @@ META = dict(
                "instance id). Further known findings on the node path (not repaired, interpreter/M3 territory): "
                "cancel/force of a *concluded* non-UOD item (completed Wait, Block, Alarm, Hold …) is accepted although "
                "not offered. Timed Pause/Hold 'ends at once' is checked by the engine-level oracle only (model M1 owns "
-               "those commands). The link 'run-log item not offered => command ended' is checked by the oracle and "
-               "evaluated as a model invariant, not proved.",
+               "those commands; findings cancelled-unstarted-engine-command-executes and "
+               "rejected-cancel-changed-state:engine-command). 'Requests for items that are not offered are rejected' is "
+               "false as stated (unoffered_counterexample: the item of a request with rejected arguments is shown failed, "
+               "not cancellable, yet cancel / force are accepted at the node site; the code does the same: known finding "
+               "unoffered-*-accepted:node:concluded); it is proved with that one exception.",
     technique="Lean 4 proof (invariant-based for the command manager, step theorems for the interpreter) + differential "
               "correspondence + engine-level property oracle",
 )
@@ -43,6 +49,7 @@ MODULE = "OPM.Properties.C12"
 REQUIRED = ["OPM.C12.cancel_unknown_rejected", "OPM.C12.cancel_ended_rejected", "OPM.C12.force_ended_rejected",
             "OPM.C12.cancel_refused_rejected", "OPM.C12.force_refused_rejected", "OPM.C12.cancel_running_finalizes",
             "OPM.C12.finalized_never_executes_again", "OPM.C12.C12_partial", "OPM.C12.C12_counterexample",
+            "OPM.C12.unoffered_cancel_rejected", "OPM.C12.unoffered_force_rejected", "OPM.C12.unoffered_counterexample",
             "OPM.C12.cancelled_watch_leaves", "OPM.C12.forced_watch_activates", "OPM.C12.forced_wait_ends",
             "OPM.C12.forced_threshold_not_awaited", "OPM.C12.interp_cancel_iff", "OPM.C12.interp_force_iff",
             # run-level lift of the interpreter half (C04 builder; proofs in lean/OPM/Lemmas/InterpC04Runs.lean)
@@ -59,10 +66,12 @@ def run(ctx: Check) -> int:
     ctx.prove(MODULE, REQUIRED)
     ctx.rule = ("Op streams for the command manager (see C11) with the profile 'c12': cancel and force requests (36 % of "
                 "the ops) on every request id — not started, running, completed, failed, cancelled, forced, unknown — at "
-                "every position; all sequences of length <= 3/4 over a 9-op alphabet incl. cancel/force; malformed "
+                "every position; all sequences of length <= 3/4 over a 10-op alphabet (incl. a request with rejected arguments) incl. cancel/force; malformed "
                 "stream. Engine level: generated methods (UOD commands, Watch/Alarm, Wait, Block, timed Pause/Hold, "
-                "Simulate, Mark) with 1-5 cancel/force requests against run-log items chosen by index (offered or "
-                "not) or an unknown id at random ticks.")
+                "Simulate, Mark, threshold lines) with 1-5 cancel/force requests against run-log items chosen by index "
+                "(offered or not) or an unknown id at random ticks, force of the line waiting for its threshold; one case "
+                "in five: a timed Hold and a timed Pause started from two Watch bodies (same tick or 1-2 ticks apart), "
+                "cancel/force of either at a random tick, a user Pause/Hold now and then.")
     streams(ctx, ["c12", "c12", "mixed"], ctx.n(500, 12000), ctx.n(3, 4), ctx.n(60, 1500), [oracle_c12], "cmdmgr")
     engine_monitor(ctx, "c12", ctx.n(600, 14000), engine_oracle)
     # ---- begin: interpreter half, threshold clause (added by the C04 builder; code in harness/c12_threshold.py) ----
@@ -75,7 +84,7 @@ def run(ctx: Check) -> int:
         ctx.count("threshold:" + _k, _v)
     # ---- end: interpreter half, threshold clause ----
     ctx.exhaustive = False
-    ctx.extra["exhaustive_scope"] = f"all op sequences of length {ctx.n(3, 4)} over 9 ops (incl. cancel/force) after Start"
+    ctx.extra["exhaustive_scope"] = f"all op sequences of length {ctx.n(3, 4)} over 10 ops (incl. cancel/force) after Start"
     ctx.extra["fix"] = FIX
     ctx.assumptions = ["UOD command requests come from the interpreter, one node per request", "command arguments parse",
                        "the interpreter model M3 is tied to pinterpreter.py by the correspondence of C02-C05"]
